@@ -1,0 +1,18 @@
+//go:build verif
+
+// Contracts for the gowp verifier (/verif). Comment-only; compiled only with -tags verif.
+package rueidis
+
+// ---------------------------------------------------------------------------------------------
+// C22 — read-node selectors (helper.go)
+
+//@ func pickAZ
+//@   requires 0 <= startIdx
+//@   safety C22
+//@   ensures [C22 in-range] result == -1 || (startIdx <= result && result < len(nodes) && result < 255)
+//@   ensures [C22 same-az] result != -1 ==> nodes[result].AZ == clientAZ
+//@   ensures [C22 finds-match] (exists k int :: startIdx <= k && k < len(nodes) && k < 255 && nodes[k].AZ == clientAZ) ==> result != -1
+//@   loop 0: invariant startIdx <= i && (i <= limit || i == startIdx) && 0 <= count && count < 8 && limit <= 255 && limit <= len(nodes)
+//@   loop 0: invariant forall j int :: 0 <= j && j < count ==> startIdx <= matches[j] && matches[j] < i && nodes[matches[j]].AZ == clientAZ
+//@   loop 0: invariant count == 0 ==> (forall k int :: startIdx <= k && k < i ==> nodes[k].AZ != clientAZ)
+//@   modifies *counter
